@@ -195,7 +195,7 @@ pub fn check(c: &Case, obs: &mut Obs) -> CheckResult {
 }
 
 fn run(ctx: &Ctx) {
-    let n = ctx.share(ctx.tier.pick(80_000, 12_000_000));
+    let n = ctx.share(ctx.tier.pick(80_000, 4_000_000));
     let strat = (input_strategy(6, false), crate::source::parser_feed_strategy(), errkind_strategy())
         .prop_filter_map("input too long", |(input, feed, kind)| {
             if input.bytes.len() > 400 {
